@@ -97,6 +97,19 @@ def sites(repo):
                     if op in ("ROR", "AOR") and re.search(r"\b(fn|impl|struct|enum|type|where)\b", lm):
                         continue
                     out.append({"file": rel, "line": line, "op": op, "start": a, "end": b, "before": text[a:b], "after": r})
+            # STR: string constants of tables and `const` items (one character changed)
+            for mt in re.finditer(r'"((?:[^"\\\n]|\\.)+)"', text):
+                a, b = mt.span()
+                ls = text.rfind("\n", 0, a) + 1
+                le = text.find("\n", a)
+                line_txt = text[ls:le if le >= 0 else len(text)]
+                if m[a] != '"' or not (re.search(r"\bconst\b.*=", line_txt) or re.search(r"\w+:\s*&?\"", line_txt)):
+                    continue
+                if re.search(r"println!|format!|eprintln!|expect\(|panic!", line_txt):
+                    continue
+                lit = mt.group(1)
+                new = lit[:-1] + ("x" if lit[-1] != "x" else "y") if not lit.endswith(("\\n", "\\r", "\\t", '\\"', "\\\\")) else "x" + lit
+                out.append({"file": rel, "line": text.count("\n", 0, a) + 1, "op": "STR", "start": a + 1, "end": b - 1, "before": lit, "after": new})
             off = 0
             for ln, (lt, lmk) in enumerate(zip(text.split("\n"), m.split("\n")), 1):
                 if SDL.match(lmk) and lmk.count("(") == lmk.count(")") and lmk.count("{") == lmk.count("}"):
